@@ -112,12 +112,21 @@ def install_probes():
                 return orig(exprs, simp)
             base = reftok.tree_tokens(exprs) if isinstance(exprs,
                                                           list) else None
+            base_s = reftok.digest(reftok.tree_struct(exprs)) if isinstance(
+                exprs, list) else None
+            origin = None
+            for key in _simp_keys(simp):
+                origin = rec.simp_origin.get(key)
+                if origin is not None:
+                    break
             r = orig(exprs, simp)
             if base is not None and isinstance(r, list):
                 rec.applies.append((rec.seq(), _actor(), rec.dig(base),
                                     rec.dig(reftok.tree_tokens(r)),
                                     len(simp.substs) if hasattr(
-                                        simp, 'substs') else -1))
+                                        simp, 'substs') else -1, origin,
+                                    reftok.digest(reftok.tree_struct(r)),
+                                    base_s))
             return r
 
         apply_simp.__wrapped__ = orig
@@ -185,12 +194,14 @@ def install_probes():
                 return orig(filename, exprs, *a, **k)
             try:
                 dig = rec.dig(reftok.tree_tokens(exprs))
+                sdig = reftok.digest(reftok.tree_struct(exprs))
             except Exception:
-                dig = None
+                dig = sdig = None
             w = {
                 'idx': len(rec.writes),
                 'actor': _actor(),
                 'dig': dig,
+                'sdig': sdig,
                 'seq0': rec.seq(),
                 'seq1': None,
                 'completed': False,
@@ -326,8 +337,14 @@ def install_probes():
                 rec.count('reduce.' + which)
                 rec.strategy_inputs = getattr(rec, 'strategy_inputs', [])
                 rec.strategy_inputs.append(
-                    (which, rec.dig(reftok.tree_tokens(exprs))))
-            r = orig(exprs, *a, **k)
+                    (which, rec.dig(reftok.tree_tokens(exprs)),
+                     reftok.digest(reftok.tree_struct(exprs))))
+            seq0 = rec.seq() if rec is not None else 0
+            try:
+                r = orig(exprs, *a, **k)
+            finally:
+                if rec is not None and CTX.S is not None:
+                    rec.reduce_spans.append((which, seq0, rec.seq()))
             if rec is not None:
                 try:
                     rec.finals[which] = r[0]
@@ -400,9 +417,26 @@ def install_mutator_probes():
                 setattr(cls, meth, _mk_mut_wrapper(cname, meth, f))
 
 
+def _simp_keys(simp):
+    """Fingerprints of the entries of a Simplification (for attributing an
+    applied simplification to the mutator that proposed it)."""
+    try:
+        for k, val in simp.substs.items():
+            kk = k if isinstance(k, int) else ('N', ) + reftok.tree_struct(k)
+            vv = None if val is None else reftok.tree_struct(val)
+            yield (kk, vv)
+    except Exception:
+        return
+
+
 def _mk_mut_wrapper(cname, meth, f):
     import inspect
     is_gen = inspect.isgeneratorfunction(f)
+
+    def note(rec, simp):
+        if len(rec.simp_origin) < 200000:
+            for key in _simp_keys(simp):
+                rec.simp_origin[key] = cname
 
     def wrapper(self, *a, **k):
         rec = CTX.rec
@@ -411,7 +445,20 @@ def _mk_mut_wrapper(cname, meth, f):
             fl = CTX.faults
             if fl is not None:
                 fl.maybe_mutator_fault(cname, meth)
-        return f(self, *a, **k)
+        r = f(self, *a, **k)
+        if rec is None or meth == 'filter' or r is None:
+            return r
+        if isinstance(r, (list, tuple)):
+            for simp in r:
+                note(rec, simp)
+            return r
+
+        def tagging(it):
+            for simp in it:
+                note(rec, simp)
+                yield simp
+
+        return tagging(r)
 
     def gen_wrapper(self, *a, **k):
         rec = CTX.rec
@@ -420,7 +467,10 @@ def _mk_mut_wrapper(cname, meth, f):
             fl = CTX.faults
             if fl is not None:
                 fl.maybe_mutator_fault(cname, meth)
-        yield from f(self, *a, **k)
+        for simp in f(self, *a, **k):
+            if rec is not None:
+                note(rec, simp)
+            yield simp
 
     w = gen_wrapper if is_gen else wrapper
     w.__wrapped__ = f
